@@ -8,7 +8,7 @@ list="$@"
 for d in $list; do
   id=${d%/*}
   if ! git -C /repo diff --quiet; then echo "refusing: /repo has local changes"; exit 2; fi
-  git -C /repo apply seeded/$d/patch.diff || { echo "$d: patch does not apply"; continue; }
+  git -C /repo apply /verif/seeded/$d/patch.diff || { echo "$d: patch does not apply"; continue; }
   for c in $id $EXTRA; do
     grep -q "\"$c\":" govc/props.go || { echo "$d: check $c not built"; continue; }
     t0=$(date +%s)
